@@ -271,8 +271,21 @@ def sys_case(ctx, c):
         ok = ss.EIG.run()
     except Exception as e:
         zero_T = int(np.sum(np.array(ss.dae.Tf) == 0)) if ss.dae.n else 0
-        ctx.fail('eigenanalysis_raised', dict(case=c, note=note, error='%s: %s' % (type(e).__name__, str(e)[:200])),
-                 sig=dict(level='system', zero_T=zero_T > 0, error=type(e).__name__))
+        # independent classification: is the block of the zero-time-constant states singular after eliminating the
+        # algebraic variables (a state that appears only through its derivative elsewhere: index-2 structure)?
+        singular = False
+        try:
+            dae = ss.dae
+            fx, fy, gx, gy = (np.array(matrix(getattr(dae, k))) for k in ('fx', 'fy', 'gx', 'gy'))
+            z = np.where(np.array(dae.Tf, dtype=float) == 0)[0]
+            if len(z):
+                S = fx - fy @ np.linalg.solve(gy, gx)
+                blk = S[np.ix_(z, z)]
+                singular = bool(np.linalg.matrix_rank(blk) < len(z))
+        except Exception:
+            pass
+        ctx.fail('eigenanalysis_raised', dict(case=c, note=note, error='%s: %s' % (type(e).__name__, str(e)[:200]), zero_block_singular=singular),
+                 sig=dict(level='system', zero_T=zero_T > 0, error=type(e).__name__, zero_block_singular=singular))
         return
     if not ok:
         ctx.count('sys:eig_returned_false')
